@@ -91,6 +91,16 @@ def check_vectors(case, ctx):
                 ctx.fail("C08/def/%s" % name, dict(case, metric=name), "%s = %r where it is undefined (no uncertainty)" % (name, got[name]))
         elif not cmpx.close(got[name], r, 1e-9):
             ctx.fail("C08/def/%s" % name, dict(case, metric=name), "%s = %r, definition %r" % (name, got[name], r))
+    # the skill-score forms are the same terms divided by the uncertainty, whatever bin a probability on a bin edge
+    # (0.3, 0.6, 0.7 ...) is put in: every term must use ONE binning
+    if len(p) > 0 and all(k in got for k in BS_FAMILY) and not math.isnan(got["bsunc"]) and got["bsunc"] > 0:
+        if edgy:
+            ctx.label("relations/p-on-decimal-edge")
+        for a, b in (("bssres", "bsres"), ("bssrel", "bsrel")):
+            if not cmpx.close(got[a] * got["bsunc"], got[b], 1e-9):
+                ctx.fail("C08/relation/%s" % b, case, "%s x bsunc = %r but %s = %r: the two use different probability bins" % (a, got[a] * got["bsunc"], b, got[b]))
+        if not cmpx.close(got["bss"] * got["bsunc"], got["bsunc"] - got["bs"], 1e-9):
+            ctx.fail("C08/relation/bss", case, "bss x bsunc = %r but bsunc - bs = %r" % (got["bss"] * got["bsunc"], got["bsunc"] - got["bs"]))
     if case.get("mode") == "one-per-bin" and len(p) > 0 and all(k in got for k in ("bs", "bsrel", "bsres", "bsunc")):
         lhs = got["bs"]
         rhs = got["bsrel"] - got["bsres"] + got["bsunc"]
